@@ -14,6 +14,9 @@ FAMILIES = ['independent', 'function', 'noisy_copy', 'const_x', 'const_y', 'dist
             'dominant', 'few_large_many_single', 'row_permuted_copy', 'identical']
 
 
+SORTS = [None, None, None, 'x', 'y']     # row layout: as generated, or grouped by one of the two vectors
+
+
 @st.composite
 def small_pair(draw, max_n=64):
     """Element-wise generated pair (fully shrinkable)."""
@@ -52,7 +55,7 @@ def family_pair(draw, sizes=((2, 8), (9, 64), (65, 2000)), max_product=5 * 10**7
         kx = max(1, kx // 2)
     k = draw(st.integers(0, 2**32 - 1))
     p = draw(st.sampled_from([0.0, 0.05, 0.15, 0.5]))
-    return {'gen': {'fam': fam, 'n': n, 'kx': kx, 'ky': ky, 'k': k, 'p': p}}
+    return {'gen': {'fam': fam, 'n': n, 'kx': kx, 'ky': ky, 'k': k, 'p': p}, 'sort': draw(st.sampled_from(SORTS))}
 
 
 def build_family(g):
@@ -99,6 +102,15 @@ def build_family(g):
         Y = rng.integers(0, ky, size=n)
         dep = rng.random(n) < 0.3
         Y[dep] = (X[dep] * 7 + Y[dep] % 5) % ky      # some dependence on the target
+    elif fam == 'manystrata':
+        # ky = repetitions per id (2..4): n // ky ids, each seen ky times, in shuffled row order; the other vector is split evenly
+        # inside every id (p == 0: MI exactly 0 although H(X|id) = ln 2 in every stratum) or random
+        ids = np.repeat(np.arange(n // ky), ky)
+        n = len(ids)
+        inside = np.tile(np.arange(ky) % kx, n // ky)
+        perm = rng.permutation(n)
+        Y = ids[perm]
+        X = inside[perm] if p == 0 else rng.integers(0, kx, size=n)[perm]
     else:
         raise ValueError(fam)
     return Y.astype(np.int64), X.astype(np.int64)
@@ -136,11 +148,18 @@ def maxn_pair(draw):
 
 
 @st.composite
+def manystrata_pair(draw):
+    """Tens of thousands of NON-singleton strata (ids seen 2-4 times, n 40 000 - 90 000): a running sum over strata has that many terms."""
+    return {'gen': {'fam': 'manystrata', 'n': draw(st.integers(40_000, 90_000)), 'kx': draw(st.integers(2, 3)), 'ky': draw(st.integers(2, 4)),
+                    'k': draw(st.integers(0, 2**32 - 1)), 'p': draw(st.sampled_from([0.0, 0.0, 0.5]))}, 'both': True}
+
+
+@st.composite
 def highcard_pair(draw):
     """Feature with more than 1024 distinct values, many of them repeated, against a target with 2-6 strata (n 3000-12000)."""
     n = draw(st.integers(3000, 12000))
     return {'gen': {'fam': 'highcard', 'n': n, 'kx': draw(st.integers(2, 6)), 'ky': draw(st.integers(1100, max(1101, n // 2))),
-                    'k': draw(st.integers(0, 2**32 - 1)), 'p': 0.0}}
+                    'k': draw(st.integers(0, 2**32 - 1)), 'p': 0.0}, 'sort': draw(st.sampled_from(SORTS)), 'both': True}
 
 
 @st.composite
@@ -193,6 +212,10 @@ def materialize_pair(case):
         Y, X = build_family(case['gen'])
     else:
         Y, X = np.asarray(case['Y'], dtype=np.int64), np.asarray(case['X'], dtype=np.int64)
+    if case.get('sort') in ('x', 'y') and len(X):
+        # the same rows in grouped order (a table sorted by one of the two columns): no score depends on the row order
+        order = np.argsort(X if case['sort'] == 'x' else Y, kind='stable')
+        Y, X = Y[order], X[order]
     return Y, X
 
 
